@@ -102,7 +102,7 @@ theorem mapM'_mem {α β : Type} {g : α → Except E β} :
     outside the declared ones -/
 theorem struct_object_enforced (x : Ext) (σ : Space) (f : Nat) (ps : List Field) (deny : Bool)
     (kvs : List (String × Json)) (v : Val) (h : deStruct x σ (f + 1) ps deny (.obj kvs) = .ok v) :
-    (∀ p ∈ ps, (p.state matches .required) → optionLike σ f p.ty = false → (Json.lookup kvs p.wire).isSome) ∧
+    (∀ p ∈ ps, (p.state matches .required) → optionLikeT σ p.ty = false → (Json.lookup kvs p.wire).isSome) ∧
     (deny = true → ∀ kv ∈ kvs, ∃ p ∈ ps, p.wire = kv.1) := by
   simp only [deStruct] at h
   split at h
